@@ -46,8 +46,13 @@ RULES = {
     "single-file writer tests `os.path.islink(<path>)`, what it takes for the destination is `os.path.realpath(<path>)`, and the "
     "external-data module never resolves one level only (`os.readlink`): with a chain of links the intermediate link would be replaced "
     "by a regular file, the real file kept its bytes, and the tensors reading from it would be invalidated although it was not replaced",
+    "R12": "a worker's failure always reaches the caller: every future the writers submit is consumed with `.result()` (which re-raises "
+    "whatever the worker raised), in the function that submitted it - or with `.exception()` whose outcome is re-raised under no other "
+    "test than `is not None`; a filter such as `isinstance(error, Exception)` drops a cancellation (CancelledError, KeyboardInterrupt …) "
+    "raised by a callback or a tensor inside a worker: the parallel writer then returns normally and the half-written temporary file is "
+    "renamed over the destination - neither the previous bytes nor the complete new ones",
 }
-FLOORS = {"R1": 5, "R2": 2, "R3": 4, "R4": 3, "R5": 1, "R6": 1, "R7": 1, "R8": 12, "R9": 1, "R10": 1, "R11": 1}
+FLOORS = {"R1": 5, "R2": 2, "R3": 4, "R4": 3, "R5": 1, "R6": 1, "R7": 1, "R8": 12, "R9": 1, "R10": 1, "R11": 1, "R12": 2}
 EXPLANATION = (
     "Path-taint analysis (temp-derived vs destination-derived) over every file-system call of the single-file "
     "writer, dominator queries for the write → replace → invalidate ordering, try/finally structure of the "
@@ -559,6 +564,32 @@ def _reaches_samefile(repo, m, e, depth=0) -> bool:
     return False
 
 
+def _alias_root(f, name: str) -> str:
+    """The name a local stands for when it is bound once to another name (`destination_path = resolved`), followed to the end."""
+    seen = set()
+    while name not in seen:
+        seen.add(name)
+        bs = [a.value for a in own_nodes(f.node) if isinstance(a, (ast.Assign, ast.AnnAssign)) and getattr(a, "value", None) is not None
+              and any(isinstance(t, ast.Name) and t.id == name for t in (a.targets if isinstance(a, ast.Assign) else [a.target]))]
+        if len(bs) == 1 and isinstance(bs[0], ast.Name):
+            name = bs[0].id
+        else:
+            break
+    return name
+
+
+def _local_reaches_samefile(repo, m, f, e) -> bool:
+    """… the test itself, or a local it reads that is bound (anywhere in the function) to an expression that does."""
+    if _reaches_samefile(repo, m, e):
+        return True
+    for x in ast.walk(e):
+        if isinstance(x, ast.Name):
+            for a in own_nodes(f.node):
+                if isinstance(a, ast.Assign) and any(isinstance(t, ast.Name) and t.id == x.id for t in a.targets) and _reaches_samefile(repo, m, a.value):
+                    return True
+    return False
+
+
 def rule_r9(ctx):
     repo = ctx.repo
     n = 0
@@ -566,6 +597,8 @@ def rule_r9(ctx):
         for f in m.all_funcs:
             if isinstance(f.node, ast.Lambda) or (f.owner_class is not None and f.owner_class.name in ("ExternalTensor", "MetadataStore")):
                 continue
+            if repo.transparent_callers(f) is not None:
+                continue  # a private helper that exists only as a part of its callers: examined inside each of them (E1b)
             for c in calls_in(f):
                 if not (isinstance(c.func, ast.Attribute) and c.func.attr == "invalidate" and not c.args and not c.keywords):
                     continue
@@ -578,18 +611,19 @@ def rule_r9(ctx):
                     loop = getattr(loop, "_parent", None)
                 selected = False
                 if loop is not None and isinstance(loop.iter, ast.Name):
+                    coll = _alias_root(f, loop.iter.id)
                     defs = [a.value for a in own_nodes(f.node) if isinstance(a, (ast.Assign, ast.AnnAssign)) and a.value is not None
-                            and any(isinstance(t, ast.Name) and t.id == loop.iter.id for t in (a.targets if isinstance(a, ast.Assign) else [a.target]))]
+                            and any(isinstance(t, ast.Name) and t.id == coll for t in (a.targets if isinstance(a, ast.Assign) else [a.target]))]
                     # … every definition of which filters by file identity
                     selected = bool(defs) and all(isinstance(v, (ast.ListComp, ast.SetComp, ast.GeneratorExp)) and any(
                         _reaches_samefile(repo, m, cond) for g in v.generators for cond in g.ifs) for v in defs)
                     if not selected and defs:
                         # or a loop that appends under such a test
-                        apps = [x for x in calls_in(f) if isinstance(x.func, ast.Attribute) and x.func.attr in ("append", "add") and norm(x.func.value) == loop.iter.id]
+                        apps = [x for x in calls_in(f) if isinstance(x.func, ast.Attribute) and x.func.attr in ("append", "add") and norm(x.func.value) == coll]
                         def guarded(x):
                             p = getattr(x, "_parent", None)
                             while p is not None and p is not f.node:
-                                if isinstance(p, ast.If) and _reaches_samefile(repo, m, p.test):
+                                if isinstance(p, ast.If) and _local_reaches_samefile(repo, m, f, p.test):
                                     return True
                                 p = getattr(p, "_parent", None)
                             return False
@@ -626,7 +660,10 @@ def rule_r10(ctx):
     joins = [a for a in own_nodes(f.node) if isinstance(a, ast.Assign) and isinstance(a.value, ast.Call) and (dotted_of(a.value.func) or "") == "os.path.join"
              and any(is_base(x) for x in a.value.args)]
     ctx.require(bool(joins), "_write_external_data: the temporary path is not join(<dir>, basename(<destination>))")
-    based = {norm(unlocal(x).args[0]) for a in joins for x in a.value.args if is_base(x)}
+    def root(e):
+        return _alias_root(f, e.id) if isinstance(e, ast.Name) else norm(e)
+
+    based = {root(unlocal(x).args[0]) for a in joins for x in a.value.args if is_base(x)}
     mn = cfg.nodes_containing(mk[0])[0]
     ok = False
     for iff in (x for x in own_nodes(f.node) if isinstance(x, ast.If) and x.body and isinstance(x.body[-1], ast.Raise)):
@@ -634,9 +671,9 @@ def rule_r10(ctx):
         neg = isinstance(t, ast.UnaryOp) and isinstance(t.op, ast.Not)
         inner = t.operand if neg else t
         inner = unlocal(inner)
-        is_basename = isinstance(inner, ast.Call) and (dotted_of(inner.func) or "") == "os.path.basename" and inner.args and norm(inner.args[0]) in based
+        is_basename = isinstance(inner, ast.Call) and (dotted_of(inner.func) or "") == "os.path.basename" and inner.args and root(inner.args[0]) in based
         empty_cmp = isinstance(t, ast.Compare) and len(t.ops) == 1 and isinstance(t.ops[0], ast.Eq) and any(
-            isinstance(x, ast.Call) and (dotted_of(x.func) or "") == "os.path.basename" and x.args and norm(x.args[0]) in based for x in (t.left, t.comparators[0])) and any(
+            isinstance(x, ast.Call) and (dotted_of(x.func) or "") == "os.path.basename" and x.args and root(x.args[0]) in based for x in (t.left, t.comparators[0])) and any(
             isinstance(x, ast.Constant) and x.value == "" for x in (t.left, t.comparators[0]))
         if (neg and is_basename) or empty_cmp:
             tn = [x for x in cfg.node_of(iff) if x.kind == "test"]
@@ -678,7 +715,51 @@ def rule_r11(ctx):
     ctx.require(n >= 1, "_write_external_data: the resolution of a symbolic-link destination was not found")
 
 
+def rule_r12(ctx):
+    m = ctx.repo.module(ED)
+    n = 0
+    for f in ctx.repo.live(m.all_funcs):
+        if isinstance(f.node, ast.Lambda):
+            continue
+        submits = [c for c in calls_in(f) if isinstance(c.func, ast.Attribute) and c.func.attr == "submit"]
+        if not submits:
+            continue
+        n += 1
+        results = [c for c in calls_in(f) if isinstance(c.func, ast.Attribute) and c.func.attr == "result" and not c.args]
+        excs = [c for c in calls_in(f) if isinstance(c.func, ast.Attribute) and c.func.attr == "exception" and not c.args]
+        bad = None
+        why = ""
+        if not results and not excs:
+            bad, why = submits[0], "the futures it submits are never consumed with `.result()`"
+        for c in excs:
+            # the name the outcome is bound to, and the raise of it
+            par = getattr(c, "_parent", None)
+            nm = par.targets[0].id if isinstance(par, ast.Assign) and isinstance(par.targets[0], ast.Name) else None
+            raises = [r for r in own_nodes(f.node) if isinstance(r, ast.Raise) and r.exc is not None and nm is not None and norm(r.exc) == nm]
+            if not raises:
+                bad, why = c, f"the outcome of `{norm(c)}` is not raised again"
+                continue
+            for r in raises:
+                q = getattr(r, "_parent", None)
+                while q is not None and q is not f.node:
+                    if isinstance(q, ast.If):
+                        t = q.test
+                        plain = isinstance(t, ast.Compare) and len(t.ops) == 1 and isinstance(t.ops[0], ast.IsNot) and norm(t.left) == nm \
+                            and isinstance(t.comparators[0], ast.Constant) and t.comparators[0].value is None
+                        plain = plain or (isinstance(t, ast.Name) and t.id == nm)
+                        if not plain and any(isinstance(y, ast.Name) and y.id == nm for y in ast.walk(t)):
+                            bad, why = t, f"`raise {nm}` is governed by `{norm(t)}`, which lets some outcomes pass unraised"
+                    q = getattr(q, "_parent", None)
+        ctx.check("R12", f"{f.local}: every failure of a submitted worker is raised to the caller", bad is None, f, bad if bad is not None else f.node,
+                  f"{why}: a worker that ends with an exception outside that filter (asyncio.CancelledError, KeyboardInterrupt, SystemExit - a callback cancelling the save) is taken "
+                  "for a success; the writer returns normally, and the temporary file with a hole where that tensor should be is renamed over the existing data file",
+                  how="futures submitted in the writers are consumed by `.result()`, or by `.exception()` re-raised under `is not None` only",
+                  construct="worker outcome filtered before it is raised")
+    ctx.require(n >= 2, f"only {n} functions that submit work to an executor found in the writers")
+
+
 def run(ctx):
+    rule_r12(ctx)
     rule_r11(ctx)
     rule_r10(ctx)
     rule_r9(ctx)
